@@ -4,6 +4,9 @@ abstract.FileDescriptor is subclassed with a scripted writeSomeData and driven b
 case = {"sl": SEND_LIMIT, "bs": bufferSize, "scale": F, "ops": [op...]}
   op   = ["w", hex] | ["ws", [hex...]] | ["reg", streaming, [[pact...]...]] | ["unreg"] | ["lose"] | ["losew"]
        | ["wst", [hex...]]   writeSequence(tuple)
+       | ["wsi", kind, [hex...]]   writeSequence(one-shot or other iterable): kind = "gen" (generator), "iter"
+                             (iterator over a list), "deque", "map" (map object)
+       | ["wsbad", kind, [hex...], pos]   the same with a str element at position pos: TypeError and NOTHING buffered
        | ["wsp", j]          writeSequence(pool[j]) -- the caller-owned list object pool[j] itself (3 lists, reused)
        | ["pa", j, hex]      the caller appends to pool[j]      | ["pc", j]  the caller clears it (del pool[j][:])
          (what was written is the content of the list AT CALL TIME; the transport must never change the caller's list:
@@ -57,6 +60,21 @@ def _unit(b: bytes, F: int) -> str:
             raise AssertionError("scaled data block is not constant")
         out.append(blk[0])
     return bytes(out).hex()
+
+
+def _iterable(kind, items):
+    import collections
+    if kind == "gen":
+        return (x for x in items)
+    if kind == "iter":
+        return iter(items)
+    if kind == "deque":
+        return collections.deque(items)
+    if kind == "map":
+        return map(lambda x: x, items)
+    if kind == "tuple":
+        return tuple(items)
+    return list(items)
 
 
 def _expand(h: str, F: int) -> bytes:
@@ -134,6 +152,20 @@ def impl(case) -> str:
             fd.writeSequence(tuple(_expand(h, F) for h in a[1]))
         elif k == "wsp":
             fd.writeSequence(pool[a[1]])
+        elif k in ("wsi", "wsbad"):
+            items = [_expand(h, F) for h in a[2]]
+            if k == "wsbad":
+                items.insert(a[3], "not bytes")
+            arg = _iterable(a[1], items)
+            if k == "wsi":
+                fd.writeSequence(arg)
+            else:
+                try:
+                    fd.writeSequence(arg)
+                except TypeError:
+                    pass
+                else:
+                    ev.append("noTypeError")
         elif k == "pa":
             pool[a[1]].append(_expand(a[2], F))
             shadow[a[1]].append(_expand(a[2], F))
@@ -159,7 +191,7 @@ def impl(case) -> str:
     for op in case["ops"]:
         del ev[:]
         k = op[0]
-        if k in ("w", "ws", "wst", "wsp", "pa", "pc", "unreg", "lose", "losew"):
+        if k in ("w", "ws", "wst", "wsp", "wsi", "wsbad", "pa", "pc", "unreg", "lose", "losew"):
             act(op)
         elif k == "reg":
             p = Producer(nextid[0], op[2])
@@ -314,6 +346,11 @@ def oracle(case, obs):
             on_write([bytes.fromhex(op[1])] if op[1] else [], where)
         elif k in ("ws", "wst"):
             on_write([bytes.fromhex(h) for h in op[1]], where)
+        elif k == "wsi":
+            on_write([bytes.fromhex(h) for h in op[2]], where)
+        elif k == "wsbad":
+            if "noTypeError" in evs:
+                return Failure(case, where + "writeSequence accepted a sequence with a str element", "bad-element-accepted")
         elif k == "wsp":
             on_write(list(opool[op[1]]), where)          # what the list held when it was handed over
         elif k == "pa":
@@ -458,8 +495,12 @@ def _gen_case(rng, sl, bs, nops, big, scale=1):
                 ops.append(["wsp", j])
             elif r2 < 0.53:
                 ops.append(["pc", j])
-            elif r2 < 0.60:
+            elif r2 < 0.56:
                 ops.append(["wst", [data.take(rng.randrange(0, 4)) for _ in range(rng.randrange(0, 3))]])
+            elif r2 < 0.60:
+                good = [data.take(rng.randrange(1, 4)) for _ in range(rng.randrange(0, 3))]
+                ops.append(["wsbad", rng.choice(["gen", "iter", "deque", "map", "list", "tuple"]), good,
+                            rng.randrange(len(good) + 1)])
             elif r2 < 0.72:
                 ops.append(["w", data.take(_len_choice(rng, sl, bs, big))])
             elif r2 < 0.9:
@@ -483,7 +524,14 @@ def _gen_case(rng, sl, bs, nops, big, scale=1):
         if kind == "w":
             ops.append(["w", data.take(_len_choice(rng, sl, bs, big))])
         elif kind == "ws":
-            ops.append(["ws", [data.take(_len_choice(rng, sl, bs, big)) for _ in range(rng.randrange(0, 4))]])
+            chunks = [data.take(_len_choice(rng, sl, bs, big)) for _ in range(rng.randrange(0, 4))]
+            r3 = rng.random()
+            if r3 < 0.55:
+                ops.append(["ws", chunks])
+            elif r3 < 0.65:
+                ops.append(["wst", chunks])
+            else:
+                ops.append(["wsi", rng.choice(["gen", "iter", "deque", "map"]), chunks])
         elif kind == "reg":
             streaming = (style == "stream") or (style != "pull" and rng.random() < 0.5)
             n = rng.randrange(0, 5)
@@ -541,6 +589,11 @@ def corpus():
         # stale producerPaused flag carried to the next producer
         {"sl": 9, "bs": 1, "ops": [["reg", True, []], ["w", "0102"], ["unreg"], ["reg", True, [[["w", "03"]]]],
                                    ["dw", 9], ["dw", 9]]},
+        # one-shot iterables: every byte must be buffered exactly once; a bad element buffers nothing
+        {"sl": 4, "bs": 9, "ops": [["wsi", "gen", ["6162", "63"]], ["dw", 99], ["wsi", "iter", ["64"]],
+                                   ["wsi", "map", ["65", "66"]], ["wsi", "deque", ["67"]], ["dw", 99],
+                                   ["wsbad", "gen", ["68", "69"], 1], ["wsbad", "list", ["6a"], 1], ["dw", 99], ["w", "6b"],
+                                   ["dw", 99]]},
         # the caller reuses its list: writeSequence(L); write(x); writeSequence(L) -- and flush-then-clear
         {"sl": 4, "bs": 9, "ops": [["pa", 0, "6162"], ["pa", 0, "63"], ["wsp", 0], ["w", "78"], ["wsp", 0], ["dw", 99],
                                    ["pc", 0], ["pa", 0, "64"], ["wsp", 0], ["pc", 0], ["dw", 99], ["wst", ["65", "66"]],
@@ -596,6 +649,10 @@ def to_coq(case):
             terms.append(_coq_op(["ws", list(pool[o[1]])]))
         elif k == "wst":
             terms.append(_coq_op(["ws", o[1]]))
+        elif k == "wsi":
+            terms.append(_coq_op(["ws", o[2]]))
+        elif k == "wsbad":
+            terms.append("Write (@nil N)")          # TypeError, nothing buffered
         else:
             terms.append(_coq_op(o))
     return f"({coq_nat(case['sl'])}, {coq_nat(case['bs'])}, {coq_list(terms, 'op')})"
@@ -635,7 +692,8 @@ SPEC = Spec(
     to_coq=to_coq,
     nontrivial=lambda c, o: ":" in o and any(t in o for t in ("L1", "R", "P", "CW")),
     histogram=_hist,
-    rule="random operation histories (3-27 ops + drain) over write / writeSequence (fresh list, tuple, or one of three "
+    rule="random operation histories (3-27 ops + drain) over write / writeSequence (fresh list, tuple, generator, iterator, deque, map object, a sequence "
+         "with a str element, or one of three "
          "caller-owned list objects that are reused, appended to and cleared between calls) / registerProducer(scripted "
          "push or pull producer) / unregisterProducer / loseConnection / loseWriteConnection / doWrite(k) / "
          "doWrite(error) / outside loss, SEND_LIMIT in {1,2,3,4,5,8}, bufferSize in {0,1,2,3,4,6,9}, write lengths "
